@@ -23,6 +23,11 @@ func checkC10(c *Ctx, r *Report) {
 	r.Assumptions = append(r.Assumptions, "text/template does not escape (it is text/template, not html/template) — checked by import path in C16")
 	c10a(c, r)
 	c10b(c, r)
+	c01StartSymbolFlow(c, r, "C10.c")
+	c10DirectiveWords(c, r, "C10.d")
+	c10CursorDiscipline(c, r, "C10.d")
+	c10TokenStartDiscipline(c, r, "C10.d")
+	c10SectionExtents(c, r)
 	c10c(c, r)
 	c10d(c, r)
 	// whether a rule ends with `;`, with the next rule's name, with %% or with the end of the file is layout: on every
